@@ -830,3 +830,95 @@ func newCase(r *hlib.Rng, s *hlib.Suite) {
 	}
 	s.Add(fmt.Sprintf("FNew %s %s %s %s", hlib.List(coqData), strList(order), hlib.List(coqEnums), coqFrame(od)), desc, len(names) > 0)
 }
+
+// ---------------------------------------------------------------- enum cardinality boundaries
+
+func enumBoundaryCase(r *hlib.Rng, s *hlib.Suite) {
+	ks := []int{1, 2, 63, 64, 65, 127, 128, 129, 191, 192, 193, 253, 254, 255, 256, 257, 300}
+	k := ks[r.Intn(len(ks))]
+	vals := make([]string, k)
+	for i := range vals {
+		vals[i] = fmt.Sprintf("v%03d", i)
+	}
+	perm := r.Perm(k)
+	declared := r.Chance(1, 2)
+	var decl []string
+	if declared {
+		decl = make([]string, k)
+		for i, p := range perm {
+			decl[i] = vals[p]
+		}
+	}
+	data := make([]*string, 0, k+3)
+	for i := 0; i < k; i++ {
+		v := vals[r.Perm(k)[0]]
+		if r.Chance(3, 4) {
+			v = vals[i]
+		}
+		data = append(data, &v)
+		if r.Chance(1, 40) {
+			data = append(data, nil)
+		}
+	}
+	if r.Chance(1, 4) {
+		u := "undeclared"
+		data = append(data, &u)
+	}
+	it := make([]string, len(data))
+	for i, x := range data {
+		it[i] = hlib.OptStr(x)
+	}
+	desc := map[string]interface{}{"op": "new-enum-boundary", "cardinality": k, "declared": declared, "rows": len(data), "props": []string{"C17", "C08", "C10"}}
+	var out qframe.QFrame
+	id := s.NextID()
+	if p, v := hlib.Recover(func() {
+		out = qframe.New(map[string]types.DataSlice{"E": data}, newqf.Enums(map[string][]string{"E": decl}))
+	}); p {
+		s.Fail(id, fmt.Sprintf("New panicked: %v", v), desc, "")
+		return
+	}
+	od := qframe.VerifDump(out)
+	if out.Err == nil {
+		s.Count("enum-boundary-ok")
+		// every cell must read back as inserted, null as null
+		view := out.MustEnumView("E")
+		for i, x := range data {
+			got := view.ItemAt(i)
+			if (x == nil) != (got == nil) || (x != nil && *x != *got) {
+				s.Fail(id, fmt.Sprintf("enum cell %d reads back differently", i), desc, "")
+				break
+			}
+		}
+	} else {
+		s.Count("enum-boundary-err")
+	}
+	s.Add(fmt.Sprintf("FNew [(%s, DStrPtrs %s)] [] [(%s, %s)] %s", hlib.Str("E"), hlib.List(it), hlib.Str("E"), strList(decl), coqFrame(od)), desc, true)
+	if out.Err != nil || out.Len() == 0 {
+		return
+	}
+	// a filter against ranks around the word boundaries of the bitset / the comparison kernels
+	target := vals[r.Intn(k)]
+	var cl *cnode
+	switch r.Intn(4) {
+	case 0:
+		cl = &cnode{kind: "leaf", col: "E", cmpS: "in", cmpGo: "in", argGo: []string{target, vals[0], vals[k-1]},
+			argC: "(AStrs " + strList([]string{target, vals[0], vals[k-1]}) + ")", desc: "E in [...]"}
+	case 1:
+		op := []string{"<", "<=", ">", ">=", "=", "!="}[r.Intn(6)]
+		cl = &cnode{kind: "leaf", col: "E", cmpS: op, cmpGo: op, argGo: target, argC: "(AStr " + hlib.Str(target) + ")", desc: "E " + op + " " + target}
+	case 2:
+		cl = &cnode{kind: "leaf", col: "E", cmpS: "like", cmpGo: "like", argGo: "v" + target[1:3] + "%", argC: "(AStr " + hlib.Str("v"+target[1:3]+"%") + ")", desc: "E like " + target[:3] + "%"}
+	default:
+		cl = &cnode{kind: "leaf", col: "E", cmpS: "=", cmpGo: "=", argGo: "undeclared-const", argC: "(AStr " + hlib.Str("undeclared-const") + ")", desc: "E = undeclared-const"}
+	}
+	cl.inv = r.Chance(1, 4)
+	desc2 := map[string]interface{}{"op": "filter", "clause": cl.String(), "enum-cardinality": k, "declared": declared, "props": []string{"C17", "C02", "C18"}}
+	var fo qframe.QFrame
+	id2 := s.NextID()
+	if p, v := hlib.Recover(func() { fo = out.Filter(cl.goClause()) }); p {
+		s.Fail(id2, fmt.Sprintf("Filter panicked: %v", v), desc2, "")
+		return
+	}
+	s.Count("enum-boundary-filter")
+	s.Add("FFilter "+coqFrame(od)+" "+matcherTable(cl, od)+" "+cl.coq()+" "+coqFrame(qframe.VerifDump(fo)), desc2, true)
+}
